@@ -1476,6 +1476,7 @@ func (w *envelopingWriter) handleEnvelopeWritten() error {
 	if err != nil {
 		err = malformedRequestError(err)
 		w.rw.reportError(err)
+		w.err = err
 		return err
 	}
 	if env.trailer {
@@ -1483,6 +1484,7 @@ func (w *envelopingWriter) handleEnvelopeWritten() error {
 		if limit := w.rw.op.methodConf.maxMsgBufferBytes; env.length > limit {
 			err := bufferLimitError(int64(limit))
 			w.rw.reportError(err)
+			w.err = err
 			return err
 		}
 		buf := w.rw.op.bufferPool.Get()
@@ -1617,6 +1619,8 @@ func (w *envelopingWriter) handleTrailer() error {
 		uncompressed := w.rw.op.bufferPool.Get()
 		defer w.rw.op.bufferPool.Put(uncompressed)
 		if err := w.rw.op.server.respCompression.decompress(uncompressed, data); err != nil {
+			w.rw.reportError(err)
+			w.err = err
 			return err
 		}
 		data = uncompressed
@@ -1624,6 +1628,7 @@ func (w *envelopingWriter) handleTrailer() error {
 	end, err := w.rw.op.serverEnveloper.decodeEndFromMessage(w.rw.op, data)
 	if err != nil {
 		w.rw.reportError(err)
+		w.err = err
 		return err
 	}
 	end.wasCompressed = w.trailerIsCompressed
@@ -1661,6 +1666,7 @@ func (w *transformingWriter) Write(data []byte) (n int, err error) {
 		if limit := int64(w.rw.op.methodConf.maxMsgBufferBytes); int64(len(data))+int64(w.buffer.Len()) > limit {
 			err := bufferLimitError(limit)
 			w.rw.reportError(err)
+			w.err = err
 			return 0, err
 		}
 		return w.buffer.Write(data)
@@ -1692,11 +1698,13 @@ func (w *transformingWriter) Write(data []byte) (n int, err error) {
 			if err != nil {
 				err = malformedRequestError(err)
 				w.rw.reportError(err)
+				w.err = err
 				return written, err
 			}
 			if limit := w.rw.op.methodConf.maxMsgBufferBytes; w.latestEnvelope.length > limit {
 				err = bufferLimitError(int64(limit))
 				w.rw.reportError(err)
+				w.err = err
 				return written, err
 			}
 			w.buffer = w.msg.reset(w.rw.op.bufferPool, false, w.latestEnvelope.compressed)
@@ -1706,6 +1714,7 @@ func (w *transformingWriter) Write(data []byte) (n int, err error) {
 		} else {
 			if err := w.flushMessage(); err != nil {
 				w.rw.reportError(err)
+				w.err = err
 				return written, err
 			}
 			if w.latestEnvelope.trailer && len(data) == 0 {
